@@ -8,6 +8,8 @@ import (
 	"errors"
 	"fmt"
 	"math"
+	"regexp"
+	"sort"
 	"strconv"
 	"strings"
 	"unicode/utf8"
@@ -83,6 +85,47 @@ func (v Value) String() string {
 	}
 	sb.WriteByte(']')
 	return sb.String()
+}
+
+// INFO fields derived from the process (uuid, and the real start time of the
+// process, which the emulator captures in a package-level variable before any
+// bubble exists)
+var runIdRe = regexp.MustCompile(`(run_id:[0-9a-f]{32}|server_time_usec:-?\d+|uptime_in_seconds:-?\d+|uptime_in_days:-?\d+)`)
+
+// Canon is String without the two things that legitimately differ between two
+// executions of the same seed: the order in which the emulator emits the
+// members of a RESP3 set (Go map iteration), and INFO's per-process run_id.
+// It is what event logs and determinism fingerprints are made of.
+func (v Value) Canon() string {
+	switch v.K {
+	case KArray, KMap, KSet, KPush:
+	case KBulk, KVerbatim:
+		if strings.Contains(v.S, "run_id:") {
+			w := v
+			w.S = runIdRe.ReplaceAllStringFunc(v.S, func(m string) string { return m[:strings.IndexByte(m, ':')+1] + "*" })
+			return w.String()
+		}
+		return v.String()
+	default:
+		return v.String()
+	}
+	parts := make([]string, len(v.A))
+	for i, e := range v.A {
+		parts[i] = e.Canon()
+	}
+	if v.K == KSet {
+		sort.Strings(parts)
+	}
+	if v.K == KMap && len(parts)%2 == 0 {
+		// some maps are built by ranging over a Go map (HELLO)
+		pairs := make([]string, 0, len(parts)/2)
+		for i := 0; i+1 < len(parts); i += 2 {
+			pairs = append(pairs, parts[i]+" "+parts[i+1])
+		}
+		sort.Strings(pairs)
+		parts = pairs
+	}
+	return v.K.String() + "[" + strings.Join(parts, " ") + "]"
 }
 
 // ErrClass is the first word of an error reply ("ERR", "WRONGTYPE", ...).
